@@ -51,14 +51,14 @@ prop('C04',
      technique='visitor exhaustiveness and table agreement')
 
 prop('C05',
-     rules=[('NUM-LEFTPAD', ['stylesheet', 'css_abbreviation']), 'NUM-SHORTHEX', 'NUM-FRAC', 'DEC-UNIT', 'TAB-UNITS', 'TAB-CSSOPS', 'TAB-KEYS-OPT', ('EXC-NUMCONV', ['css_abbreviation', 'stylesheet']), ('EXC-FMT', ['stylesheet']), ('CNT-DEPTH', ['css_abbreviation']), ('DEC-CHARCLASS', ['css_abbreviation', 'scanner_utils']), ('OWN-GLOBAL', ['stylesheet'])],
+     rules=['TBL-CSSVALUE', ('NUM-LEFTPAD', ['stylesheet', 'css_abbreviation']), 'NUM-SHORTHEX', 'NUM-FRAC', 'DEC-UNIT', 'TAB-UNITS', 'TAB-CSSOPS', 'TAB-KEYS-OPT', ('EXC-NUMCONV', ['css_abbreviation', 'stylesheet']), ('EXC-FMT', ['stylesheet']), ('CNT-DEPTH', ['css_abbreviation']), ('DEC-CHARCLASS', ['css_abbreviation', 'scanner_utils']), ('OWN-GLOBAL', ['stylesheet'])],
      explanation='Hex printing (left padding, short form only when r, g and b allow it, r-g-b order) is decided over all 256 channel values (D); '
                  'the unit decision is extracted as a complete table (N); alias/unit/separator tables are the documented ones (D).',
      not_decided=['tokenisation of number/unit/dash/colour sequences', 'frac() rounding beyond the conversion type'],
      technique='exhaustive table extraction of pure helpers; constant tables')
 
 prop('C06',
-     rules=['DEC-DIRECTHIT', 'TAB-SNIPKEYS', 'DEC-SCOPE', 'EXC-JOIN', 'TAB-KEYS-OPT', 'ORD-MERGE'],
+     rules=['TBL-CSSMATCH', 'DEC-DIRECTHIT', 'TAB-SNIPKEYS', 'DEC-SCOPE', 'EXC-JOIN', 'TAB-KEYS-OPT', 'ORD-MERGE'],
      explanation='Necessary conditions for "a key selects its own snippet": equal case-folded strings score exactly 1 before any other exit and '
                  'a score of 1 is returned immediately; no key occurs twice (also ignoring case) after | expansion (exhaustive over all 479 keys); '
                  'scope filtering is a complete decision table and is applied on every call; default-value wrapping cannot raise on numbers.',
@@ -104,7 +104,7 @@ prop('C10',
      technique='sentinel-flow analysis through callbacks; guard dominance')
 
 prop('C11',
-     rules=[('RNG-CLAMP', ['extract_abbreviation']), 'TAB-BRACEPAIRS', 'RNG-LOOKAHEAD', ('PIN-EXTRACT', ['extract_abbreviation']), ('DEC-CHARCLASS', ['extract_abbreviation', 'scanner_utils']), ('SCN-OVER', ['extract_abbreviation']), ('SCN-PROGRESS', ['extract_abbreviation']), ('SCN-REST', ['extract_abbreviation'])],
+     rules=[('RNG-CLAMP', ['extract_abbreviation']), 'TAB-BRACEPAIRS', 'RNG-LOOKAHEAD', ('PIN-EXTRACT', ['extract_abbreviation']), ('DEC-CHARCLASS', ['extract_abbreviation', 'scanner_utils']), ('SCN-OVER', ['extract_abbreviation']), ('SCN-PROGRESS', ['extract_abbreviation']), ('SCN-REST', ['extract_abbreviation']), ('SIB-QUOTE', ['extract_abbreviation'])],
      explanation='The caret position is clamped before it becomes a cursor (D); bracket pairing tables agree with the predicates that guard them (D).',
      not_decided=['the round-trip clause (backward heuristic, is_html) is value-level'],
      technique='clamp dominance; table agreement')
@@ -132,7 +132,7 @@ prop('C14',
      technique='field coverage; splice shape')
 
 prop('C15',
-     rules=['TAB-KEYS-PROFILE', 'TAB-FORMATTERS', 'SIB-CARET', 'SIB-SPLITLINES', 'OWN-RAWPUSH', 'PATH-LEVEL', 'PATH-EMIT-INDENT', 'INF-LEVEL', 'PATH-EMIT-ATTR'],
+     rules=['TBL-INDENT', 'TAB-KEYS-PROFILE', 'TAB-FORMATTERS', 'SIB-CARET', 'SIB-SPLITLINES', 'OWN-RAWPUSH', 'PATH-LEVEL', 'PATH-EMIT-INDENT', 'INF-LEVEL', 'PATH-EMIT-ATTR'],
      explanation='Profile keys read by subscript exist in all three profiles and carry the documented punctuation (D); each syntax reaches its formatter (D).',
      not_decided=['tree equality with the HTML output; layout of multi-line text'],
      technique='reader/writer key agreement')
